@@ -1,7 +1,7 @@
 CONSTANTS
   Kind = "x"
   MaxE = 3
-  MaxUR = 3
+  MaxUR = 1
   MaxF = 1
   UseStop = FALSE
   Flat = FALSE
